@@ -253,6 +253,26 @@ theorem render_succeeds_of_parentBelow (E : Strs) (s : St) (c : RenderConfig) (h
     ∃ out, render E s c = .ok out :=
   render_succeeds_aux E s c hh hroot (hierWF_of_parentBelow s hpb) hops hname
 
+/-! ### the hypotheses hold for the stores the driver renders -/
+
+/-- **The executable check `hypsB` (RenderCheck.lean) is sound**: a store that passes it satisfies the
+    store hypotheses of the theorems above.  The driver evaluates `hypsB` on every store it loads from a
+    builder-built document and the harness fails the case if it is false, so the hypotheses are
+    established for every tested HUGR. -/
+theorem checked_store_hypotheses (s : St) (h : hypsB s = true) :
+    HierInv s ∧ RootInv s ∧ HierWF s ∧ PortBound s := hypsB_sound s h
+
+/-- for a checked store every live node is drawn exactly once and every parent has exactly one cluster -/
+theorem checked_store_draws_every_node (E : Strs) (s : St) (c : RenderConfig) (out : RenderOut)
+    (hs : hypsB s = true) (h : render E s c = .ok out) :
+    (Item.drawn out.root).Nodup ∧ (∀ i, i ∈ Item.drawn out.root ↔ i ∈ Store.liveNodes s) ∧
+    (Item.clusters out.root).Nodup ∧
+    (∀ i, i ∈ Item.clusters out.root ↔ ∃ d, Store.getNode s i = .ok d ∧ d.children ≠ []) := by
+  obtain ⟨hh, hroot, hwf, _⟩ := hypsB_sound s hs
+  obtain ⟨h1, h2⟩ := one_node_stmt_per_node E s c out hh hroot hwf h
+  obtain ⟨h3, h4⟩ := one_cluster_per_parent E s c out hh hroot hwf h
+  exact ⟨h1, h2, h3, h4⟩
+
 /-! ### non-vacuity: a concrete HUGR
 
 `Module`(0, metadata name = "g") ⊃ `DFG`(1) ⊃ { `Input`(2), `Output`(3, metadata k = 1) }, one value link
@@ -344,6 +364,8 @@ theorem ex_bound : PortBound exStore := by
   rcases hl with rfl | rfl
   · exact ⟨⟨_, rfl, by decide, by decide⟩, ⟨_, rfl, by decide, by decide⟩⟩
   · exact ⟨⟨_, rfl, by decide, by decide⟩, ⟨_, rfl, by decide, by decide⟩⟩
+
+example : hypsB exStore = true := by decide
 
 /-- the hypotheses of `render_succeeds` (and of the other theorems) hold for the example … -/
 example : ∃ out, render exStrs exStore {} = .ok out :=
